@@ -424,19 +424,39 @@ def rule_j6(ctx):
     c = f"{TAR}:TarParser.parse_start"
     n = 0
     node = next((s_ for s_ in f.body if isinstance(s_, ast.If)), None)
+    # the list of children is whatever the final `return "<start>", NAME` hands out
+    def ret_value(r):
+        v = r.value
+        if isinstance(v, ast.Name):
+            d = [a for a in f.body if isinstance(a, ast.Assign) and len(a.targets) == 1 and src(a.targets[0]) == v.id]
+            v = d[0].value if len(d) == 1 else v
+        return v
+
+    fin = [ret_value(r) for r in f.body if isinstance(r, ast.Return) and r.value is not None]
+    fin = [v for v in fin if isinstance(v, ast.Tuple) and len(v.elts) == 2 and isinstance(v.elts[1], ast.Name)]
+    if len(fin) != 1 or not (isinstance(fin[0].elts[0], ast.Constant) and fin[0].elts[0].value == "<start>"):
+        raise Unrecognised("C20.J6", c, "final `return \"<start>\", <children>` not found")
+    kids = fin[0].elts[1].id
     while isinstance(node, ast.If):
         t = node.test
+        body, orelse = node.body, node.orelse
+        if isinstance(t, ast.UnaryOp) and isinstance(t.op, ast.Not) and orelse:
+            t, body, orelse = t.operand, orelse, body  # `if not c: B else: A`
         syms = None
-        if isinstance(t, ast.Compare) and len(t.ops) == 1 and src(t.left) == "self.start_symbol":
-            if isinstance(t.ops[0], ast.Eq) and isinstance(t.comparators[0], ast.Constant):
-                syms = [t.comparators[0].value]
-            elif isinstance(t.ops[0], ast.In) and isinstance(t.comparators[0], (ast.Tuple, ast.List, ast.Set)) and all(isinstance(e, ast.Constant) for e in t.comparators[0].elts):
-                syms = [e.value for e in t.comparators[0].elts]
+        if isinstance(t, ast.Compare) and len(t.ops) == 1:
+            l, r = t.left, t.comparators[0]
+            if isinstance(t.ops[0], ast.Eq) and src(r) == "self.start_symbol":
+                l, r = r, l
+            if src(l) == "self.start_symbol":
+                if isinstance(t.ops[0], ast.Eq) and isinstance(r, ast.Constant):
+                    syms = [r.value]
+                elif isinstance(t.ops[0], ast.In) and isinstance(r, (ast.Tuple, ast.List, ast.Set)) and all(isinstance(e, ast.Constant) for e in r.elts):
+                    syms = [e.value for e in r.elts]
         if syms is None:
             raise Unrecognised("C20.J6", c, f"dispatch test `{src(t)[:50]}` not understood")
-        asg = [a for a in node.body if isinstance(a, ast.Assign) and src(a.targets[0]) == "children" and isinstance(a.value, ast.List)]
+        asg = [a for a in body if isinstance(a, ast.Assign) and src(a.targets[0]) == kids and isinstance(a.value, ast.List)]
         if len(asg) != 1:
-            raise Unrecognised("C20.J6", c, f"branch for {syms} does not assign `children = [...]`")
+            raise Unrecognised("C20.J6", c, f"branch for {syms} does not assign `{kids} = [...]`")
         calls = [e for e in asg[0].value.elts if isinstance(e, ast.Call) and isinstance(e.func, ast.Attribute) and src(e.func.value) == "self"]
         if syms != ["<start>"]:
             if len(calls) != 1 or len(asg[0].value.elts) != 1:
@@ -452,7 +472,7 @@ def rule_j6(ctx):
                 ctx.check(lab == sym, "J6-parser-root-label", c, f"start symbol {sym} -> tree rooted in {sym}", site(calls[0]),
                           f"for start symbol {sym} the parser returns `{src(calls[0])}`, a tree rooted in {lab}: the replacement that ljust_crop_tar / rjust_crop_tar propose for a {sym} argument "
                           f"has the right text and width but is not a tree for {sym}", f"{meth.name} returns {lab}")
-        node = node.orelse[0] if len(node.orelse) == 1 and isinstance(node.orelse[0], ast.If) else None
+        node = orelse[0] if len(orelse) == 1 and isinstance(orelse[0], ast.If) else None
     if n < 15:
         raise Unrecognised("C20.J6", c, f"only {n} start-symbol branches found (expected >= 15)")
 
